@@ -24,7 +24,7 @@ import (
 
 func init() {
 	vs.RegisterHarness("VerifC10SubmitSignature", VerifC10SubmitSignature)
-	vs.RegisterHarness("VerifC10EndBlock", VerifC10EndBlock)
+	vs.RegisterHarness("VerifC10EndBlockOne", VerifC10EndBlockOne)
 	vs.RegisterHarness("VerifC10EndBlockTwo", VerifC10EndBlockTwo)
 	vs.RegisterHarness("VerifC10HandleExpiredSignings", VerifC10HandleExpiredSignings)
 	vs.RegisterHarness("VerifC10Aggregate", VerifC10Aggregate)
@@ -505,13 +505,13 @@ func c10EndBlockWith(step func(ctx sdk.Context, k *Keeper)) {
 	}
 }
 
-// VerifC10EndBlock: HandleSigningEndBlock from an arbitrary state.
-func VerifC10EndBlock() {
+// VerifC10EndBlockOne: HandleSigningEndBlock from an arbitrary state.
+func VerifC10EndBlockOne() {
 	c10EndBlockWith(func(ctx sdk.Context, k *Keeper) { k.HandleSigningEndBlock(ctx) })
 }
 
 // VerifC10EndBlockTwo: the same step with its own bounds (two signings sharing the expiration list).
-func VerifC10EndBlockTwo() { VerifC10EndBlock() }
+func VerifC10EndBlockTwo() { VerifC10EndBlockOne() }
 
 // VerifC10EndBlockWith is the entry used by the x/tss (abci) harness.
 func VerifC10EndBlockWith(step func(ctx sdk.Context, k *Keeper)) { c10EndBlockWith(step) }
@@ -533,7 +533,7 @@ func VerifC10HandleExpiredSignings() {
 		}
 	}
 	// the scan does not change statuses; a timed-out signing is left for the caller to retry, so S2 is
-	// re-established only by the retry (checked in VerifC10EndBlock): compare everything but S2 here
+	// re-established only by the retry (checked in VerifC10EndBlockOne): compare everything but S2 here
 	for _, sg := range timedOut {
 		vs.Assert("timed-out-signing-was-waiting", sg.status == types.SIGNING_STATUS_WAITING)
 	}
